@@ -218,6 +218,23 @@ CHECKS["C24"] = (
     "DESIGN.md 6/C24",
 )
 
+# Families added after the adversary waves (DESIGN.md 10.1 / 10.5); appended to the level text.
+ADDENDA = {
+    "C15": " Also: every ordered pair of configurations within one field group of one base format is run back to back in one process (via make_sequence_header and via abandoned iter_sequence_headers generators), so state leaking between calls is in scope.",
+    "C16": " Also: two-column level definitions (columns admitting different base formats with different frame-rate rules, the shape of the real level 64) and two-step histories (ordered pairs of configurations differing in one field encoded back to back under one level definition).",
+    "C17": " Also: every ragged two-row CSV file (0..3 cells per row) and an operand-aliasing oracle (operands of finished operations are never modified later).",
+    "C18": " Every valid_next_symbols() answer is edited in place by the harness and the question asked again.",
+    "C19": " Also: rejoin, loop-pair and run families (unions whose sides hold the required symbols adjacent or interleaved).",
+    "C20": " Every reader case is repeated on a stream starting 1-3 bytes into its file (positions must shift, values must not).",
+    "C21": " Also: every list target replaced by each of 10 non-list values (falsy ones included) and every pair of needed values of one dictionary removed with per-context-type defaults.",
+    "C22": " Index-valued entries are given both as enum members and as the plain integers the sequence-header parser stores.",
+    "C23": " Also: sample-edit comparisons repeated with a difference mask requested, and histories of 2-3 formats written / read / compared through one VideoParameters object edited in place.",
+    "C24": " A second, two-configuration CSV (default cells, explicit quantisation matrix) is run serially, as workers one by one, and serially under other hash seeds; all trees must agree.",
+    "C25": " The reported bit offset must be the one the decoder nominates and the .raw bytes must equal the documented planar layout (mixed byte widths included).",
+    "C27": " Also: copy-with-overrides construction T(existing, key=value) and reference cycles through fixeddicts (8 shapes x pickle protocols 0-5 and deepcopy, structure compared including identities).",
+    "C28": " Also: oversized cells and bare carriage returns (raw family), cross-column files, unknown rows with format-special names, explicit names colliding with default column names.",
+}
+
 NOT_YET = "check not built yet in this revision (planned, see DESIGN.md section 6)"
 
 
@@ -229,6 +246,7 @@ def main():
         pid = p["id"]
         if pid in CHECKS and os.path.exists(os.path.join(HERE, "props", pid.lower() + ".py")):
             cat, tech, text, note, ref = CHECKS[pid]
+            text = text + ADDENDA.get(pid, "")
             checks.append(
                 {
                     "property_id": pid,
